@@ -409,4 +409,35 @@ theorem chain_blocks_spec (genes : List Gene) (hcon : Consec 0 genes)
         have hmem : sepComp ∈ m.components := List.contains_iff_mem.mp hc
         exact absurd ((hgood r hr m hm').2 sepComp hmem) sep_not_known
 
+
+/-! ### region order and numbering -/
+
+theorem mem_regionGenes (cross : Option Nat) (genes : List Gene) (g : Gene) (h : g ∈ regionGenes cross genes) :
+    g ∈ genes := by
+  unfold regionGenes at h
+  cases cross with
+  | none => exact h
+  | some s =>
+    rcases List.mem_append.mp h with h | h <;> exact (List.mem_filter.mp h).1
+
+theorem reindexFrom_spec : ∀ (l : List Gene) (n : Nat),
+    Consec n ((l.zipIdx n).map fun (g, i) => { g with index := i })
+    ∧ ∀ g' ∈ (l.zipIdx n).map (fun (g, i) => ({ g with index := i } : Gene)),
+        ∃ g ∈ l, g'.domains = g.domains ∧ g'.name = g.name
+  | [], _ => ⟨trivial, by intro g h; cases h⟩
+  | a :: l, n => by
+    obtain ⟨h1, h2⟩ := reindexFrom_spec l (n + 1)
+    simp only [List.zipIdx_cons, List.map_cons]
+    refine ⟨⟨rfl, h1⟩, ?_⟩
+    intro g' hg'
+    rcases List.mem_cons.mp hg' with h | h
+    · subst h; exact ⟨a, List.mem_cons_self, rfl, rfl⟩
+    · obtain ⟨g, hg, e1, e2⟩ := h2 g' h
+      exact ⟨g, List.mem_cons_of_mem _ hg, e1, e2⟩
+
+theorem consec_reindex (l : List Gene) : Consec 0 (reindex l) := (reindexFrom_spec l 0).1
+
+theorem reindex_mem (l : List Gene) (g' : Gene) (h : g' ∈ reindex l) :
+    ∃ g ∈ l, g'.domains = g.domains ∧ g'.name = g.name := (reindexFrom_spec l 0).2 g' h
+
 end ASV.Modules
